@@ -2,6 +2,7 @@ package main
 
 import (
 	"fmt"
+	"os"
 	"go/types"
 	"strings"
 
@@ -85,7 +86,7 @@ func (x *Exec) intrinsic(fr *Frame, st *State, ins ssa.Instruction, cc *ssa.Call
 		s2 := st.clone()
 		s2.reach = tTrue
 		vals := x.inlineRun(fr, s2, fn, clo, []Term{bv}, ins.Pos())
-		body := vc.closeBinder(vals[0])
+		body, pats := vc.closeBinder(vals[0])
 		// integer-typed bound variables range over their Go type
 		var guard Term = tTrue
 		if b, ok := underlying(p.Type()).(*types.Basic); ok && b.Info()&types.IsInteger != 0 {
@@ -99,7 +100,15 @@ func (x *Exec) intrinsic(fr *Frame, st *State, ins ssa.Instruction, cc *ssa.Call
 		} else {
 			body = implies(guard, body)
 		}
-		fr.regs[res] = Term{fmt.Sprintf("(%s ((%s %s)) %s)", q, bv.S, bs, body.S), SBool}
+		if len(pats) > 0 && usePatterns {
+			var pb strings.Builder
+			for _, p := range pats {
+				pb.WriteString(" :pattern (" + p + ")")
+			}
+			fr.regs[res] = Term{fmt.Sprintf("(%s ((%s %s)) (! %s%s))", q, bv.S, bs, body.S, pb.String()), SBool}
+		} else {
+			fr.regs[res] = Term{fmt.Sprintf("(%s ((%s %s)) %s)", q, bv.S, bs, body.S), SBool}
+		}
 	case "vs_same":
 		a, b := x.val(fr, st, cc.Args[0]), x.val(fr, st, cc.Args[1])
 		fr.regs[res] = and(eq(sArr(a), sArr(b)), eq(sOff(a), sOff(b)), eq(sLen(a), sLen(b)))
@@ -522,3 +531,6 @@ func rangeIndexOf(h *ssa.BasicBlock) (*ssa.Alloc, ssa.Value) {
 	}
 	return cell, ln
 }
+
+// usePatterns: attach explicit instantiation patterns to vs_all / vs_any quantifiers.
+var usePatterns = os.Getenv("GOCV_PATTERNS") == "1"
